@@ -252,6 +252,9 @@ for FullSync<'a, ItemType, OgreAllocatorType, BUFFER_SIZE, MAX_STREAMS> {
 
     #[inline(always)]
     fn drop_resources(&self, stream_id: u32) {
+        // discard the events this stream left unconsumed: they must neither be yielded to a future stream
+        // that gets the same `stream_id` nor keep their payloads alive
+        while self.consume(stream_id).is_some() {}
         self.streams_manager.report_stream_dropped(stream_id);
     }
 }
